@@ -268,6 +268,9 @@ class Flow:
                 continue
             for si, s in enumerate(b["s"]):
                 if s[0] == "A":
+                    # `(*p).f = v` / `(*p)[i] = v` store through p; they do not define p
+                    if "*" in s[1][1:]:
+                        continue
                     self.defs[s[1][0]].append(("stmt", bi, si, s[1], s[2]))
             t = b["t"]
             if t and t["k"] == "Call":
